@@ -13,6 +13,7 @@ from .c04 import oracle_ad
 
 PI = np.pi
 SHARDS = {"quick": 12, "thorough": 16}
+REQUIRED_REACH = ['SO3LieAlgebra.left_jacobian', 'SE3LieAlgebra.left_Q', 'SE3LieAlgebra.right_jacobian_inv', 'SE23LieAlgebra.left_jacobian', 'SO3QuatLieGroup.left_jacobian', 'SO3QuatLieGroup.right_jacobian', 'SO3MrpLieGroup.right_jacobian']
 RULE = ("algebra vectors of so(3), se(3), se_2(3): corpus (0, denormal, both sides of every series switch, pi, >pi) + random "
         "(angle 0..2pi-0.05 with tiny/near-limit mix, translations log-uniform 1e-6..10) + bisected switch brackets; reference "
         "Jacobians from scipy.linalg.expm_frechet (exact directional derivative of the matrix exponential: L expm(-X) = (J_l d)^, "
